@@ -18,7 +18,7 @@ from streamflow.deployment.template import CommandTemplateMap
 
 from sfv.framework import Ctx, Property
 from sfv.rt.hexs import hx, unhx
-from sfv.rt.shfake import Hang, MiniConnector, mini_location, run_watchdog
+from sfv.rt.shfake import in_scratch_cwd, Hang, MiniConnector, mini_location, run_watchdog
 from sfv.translate import cmdtmpl
 
 PY = sys.executable
@@ -589,6 +589,7 @@ class C25(Property):
                     ctx.fail("equiv:shell-differs-from-fresh-process", f"{sample}: shell {str(a)[:80]!r} vs fresh {str(b)[:80]!r}", replay)
 
     # ------------------------------------------------------------------------------------------------------------
+    @in_scratch_cwd
     def explore(self, ctx: Ctx) -> None:
         from sfv.rt.shfake import limit_failures
         limit_failures(ctx)
@@ -607,6 +608,7 @@ class C25(Property):
             if g != e:
                 ctx.disagree(f"model vs {m[0]}", f"{m[0]}: code {e[:300]!r}, Lean model {g[:300]!r}", m[1])
 
+    @in_scratch_cwd
     def replay(self, ctx: Ctx, data) -> None:
         self._setup(ctx)
         r = data.get("replay") or {}
